@@ -150,9 +150,10 @@ def build_harness(race=False):
         key = th + '-' + hh.hexdigest()[:12]
         binp = os.path.join(WORK, 'bin', 'harness-%s%s.test' % (key, '-race' if race else ''))
         if os.path.exists(binp):
+            os.utime(binp)
             return True, binp, ''
         for old in glob.glob(os.path.join(WORK, 'bin', 'harness-*.test')):
-            if time.time() - os.path.getmtime(old) > 600:
+            if time.time() - os.path.getmtime(old) > 6 * 3600:   # a long thorough run may still be using an older one
                 os.remove(old)
         shutil.copy(os.path.join(REPO, 'go.sum'), os.path.join(VERIF, 'harness', 'go.sum'))
         gm = os.path.join(VERIF, 'harness', 'go.mod')
@@ -542,7 +543,10 @@ def main():
                     assumptions=prop.get('assumptions', []), wall_s=round(time.time() - t0, 2), violations=nviol)
     with open(evp, 'w') as f:
         json.dump(evidence, f, indent=1)
-    shutil.rmtree(outdir, ignore_errors=True)
+    if os.environ.get('VERIF_KEEP'):      # debugging aid: keep the case files of this run
+        log('case files kept in ' + outdir)
+    else:
+        shutil.rmtree(outdir, ignore_errors=True)
     for l in out_lines:
         print(l)
     print('%s %s: cases=%d corr_mismatch=%d monitor_fail=%d proofs=%s wall=%.1fs' % (
